@@ -96,3 +96,23 @@ fn cdc_roundtrip_1x3() {
         Err(_) => assert!(false, "round trip failed to decode"),
     }
 }
+
+/// stub for alloc::fmt::format (error-message formatting dominates CBMC's cost and is irrelevant to the properties)
+pub fn stub_format(_args: core::fmt::Arguments<'_>) -> String {
+    String::new()
+}
+
+#[kani::proof]
+#[kani::unwind(12)]
+#[kani::stub(alloc::fmt::format, stub_format)]
+fn cdc_decode_total_3() {
+    let (d, n) = any_bytes::<3>();
+    let data = &d[..n];
+    if let Ok(t) = check_rle_stream(data) {
+        kani::assume(t <= 8);
+    }
+    let reference = [0u8; 2];
+    let r = decode(&reference, data);
+    kani::cover!(r.is_ok(), "some payload decodes");
+    kani::cover!(r.is_err(), "some payload is rejected");
+}
